@@ -242,7 +242,13 @@ class Runner:
         self.tracer.iteration = None
 
 
+def _is_prange_for(s) -> bool:
+    return isinstance(s, ast.For) and isinstance(s.iter, ast.Call) and getattr(s.iter.func, "id", None) == "prange"
+
+
 def split_kernel(pyfunc, name: str | None = None) -> SplitKernel:
+    """Re-instantiate ``pyfunc`` with every prange loop (at function level or inside if/else/with/try blocks, not inside
+    other loops) replaced by ``def __vf_body_k(i): <body>; __vf_parallel(__vf_body_k, *prange_args)``."""
     src = textwrap.dedent(inspect.getsource(pyfunc))
     tree = ast.parse(src)
     fdef = next(n for n in tree.body if isinstance(n, ast.FunctionDef))
@@ -250,26 +256,68 @@ def split_kernel(pyfunc, name: str | None = None) -> SplitKernel:
     fdef.returns = None
     for a in [*fdef.args.args, *fdef.args.kwonlyargs, *fdef.args.posonlyargs]:
         a.annotation = None
-    loops = [i for i, s in enumerate(fdef.body) if isinstance(s, ast.For) and isinstance(s.iter, ast.Call) and getattr(s.iter.func, "id", None) == "prange"]
-    if len(loops) != 1:
-        raise SplitError(f"{pyfunc.__name__}: expected exactly one top-level prange loop, found {len(loops)}")
-    li = loops[0]
-    loop = fdef.body[li]
-    if not isinstance(loop.target, ast.Name) or loop.orelse:
-        raise SplitError("unsupported loop form")
-    prelude, postlude = fdef.body[:li], fdef.body[li + 1 :]
-    body_stmts = [_ContinueToReturn().visit(s) for s in loop.body]
     argnames = {a.arg for a in fdef.args.args}
-    carried = (_assigned_names(body_stmts) - {loop.target.id}) & (_assigned_names(prelude) | argnames)
-    body_def = ast.FunctionDef(
-        name="__vf_body",
-        args=ast.arguments(posonlyargs=[], args=[ast.arg(arg=loop.target.id)], kwonlyargs=[], kw_defaults=[], defaults=[]),
-        body=body_stmts or [ast.Pass()],
-        decorator_list=[],
-        type_params=[],
-    )
-    call = ast.Expr(ast.Call(func=ast.Name(id="__vf_parallel", ctx=ast.Load()), args=[ast.Name(id="__vf_body", ctx=ast.Load()), *loop.iter.args], keywords=[]))
-    fdef.body = [*prelude, body_def, call, *postlude]
+    loops: list = []
+
+    def rewrite(stmts: list) -> list:
+        out = []
+        for st in stmts:
+            if _is_prange_for(st):
+                if not isinstance(st.target, ast.Name) or st.orelse:
+                    raise SplitError("unsupported prange loop form")
+                k = len(loops)
+                loops.append(st)
+                body_stmts = [_ContinueToReturn().visit(b) for b in st.body]
+                if any(_is_prange_for(x) for b in st.body for x in ast.walk(b)):
+                    raise SplitError("nested prange loops")
+                body_def = ast.FunctionDef(
+                    name=f"__vf_body_{k}",
+                    args=ast.arguments(posonlyargs=[], args=[ast.arg(arg=st.target.id)], kwonlyargs=[], kw_defaults=[], defaults=[]),
+                    body=body_stmts or [ast.Pass()],
+                    decorator_list=[],
+                    type_params=[],
+                )
+                call = ast.Expr(ast.Call(func=ast.Name(id="__vf_parallel", ctx=ast.Load()),
+                                         args=[ast.Name(id=f"__vf_body_{k}", ctx=ast.Load()), *st.iter.args], keywords=[]))
+                out += [body_def, call]
+            elif isinstance(st, ast.If):
+                st.body = rewrite(st.body)
+                st.orelse = rewrite(st.orelse)
+                out.append(st)
+            elif isinstance(st, (ast.With, ast.Try)):
+                st.body = rewrite(st.body)
+                out.append(st)
+            else:
+                if isinstance(st, (ast.For, ast.While)) and any(_is_prange_for(x) for x in ast.walk(st)):
+                    raise SplitError("prange loop inside another loop")
+                out.append(st)
+        return out
+
+    fdef.body = rewrite(fdef.body)
+    if not loops:
+        raise SplitError(f"{pyfunc.__name__}: no prange loop found")
+    # names (re)assigned inside a loop body that are also assigned outside it (or are arguments): carried scalars / reductions
+    body_names = {k: _assigned_names(lp.body) - {lp.target.id} for k, lp in enumerate(loops)}
+    carried: set[str] = set()
+
+    # statements that contain a body definition (if-blocks): count only names assigned outside the body functions
+    def outside_names(stmts):
+        names = set()
+        for st in stmts:
+            if isinstance(st, ast.FunctionDef) and st.name.startswith("__vf_body_"):
+                continue
+            if isinstance(st, ast.If):
+                names |= outside_names(st.body) | outside_names(st.orelse)
+                names |= _assigned_names([st.test]) if hasattr(st, "test") else set()
+            elif isinstance(st, (ast.With, ast.Try)):
+                names |= outside_names(st.body)
+            else:
+                names |= _assigned_names([st])
+        return names
+
+    out_names = outside_names(fdef.body) | argnames
+    for k in body_names:
+        carried |= body_names[k] & out_names
     fdef.name = "__vf_kernel"
     mod = ast.Module(body=[fdef], type_ignores=[])
     ast.fix_missing_locations(mod)
